@@ -749,9 +749,62 @@ def stale_dim_scan(ctx, viol):
     return ev
 
 
+def directed(ctx, viol):
+    """corpus of past findings, replayed first on every run (fixed inputs, no randomness)"""
+    g = gs()
+    ev = 0
+    with warnings.catch_warnings():
+        warnings.simplefilter("ignore")
+        # D8: bounds frozen at construction
+        for cls, nu, d1, pts in (("JBessel", 0.0, 3, None), ("SuperSpherical", 0.0, 3, None), ("TPLSimple", 1.0, 3, None)):
+            m = getattr(g, cls)(dim=1, nu=nu, len_scale=3.0)
+            try:
+                m.dim = d1
+                stale_ok = True
+            except ValueError:
+                stale_ok = False
+            try:
+                getattr(g, cls)(dim=d1, nu=nu)
+                fresh_ok = True
+            except ValueError:
+                fresh_ok = False
+            ev += 1
+            if stale_ok and not fresh_ok:
+                grid = np.array(list(itertools.product(range(4), repeat=d1)), dtype=float).T
+                lam = min_eig(cov_matrix_spatial(m, grid))
+                if lam < -1e-8 * grid.shape[1] * m.var:
+                    viol.append({"key": f"stale-dim-dependent-bounds:{cls}",
+                                 "what": f"{cls}(dim=1, nu={nu}); model.dim = {d1} is accepted although {cls}(dim={d1}, nu={nu}) raises; 4x4x4 lattice covariance min eigenvalue {lam:.3e}",
+                                 "case": {"cls": cls, "dim0": 1, "dim1": d1, "nu": nu, "len_scale": 3.0, "min_eig": lam}})
+        # N1 / N2: correlation collapses at small positive lags
+        for cls, kw, lags in (("JBessel", dict(dim=2, nu=36.0), [1e-7, 1e-3]), ("JBessel", dict(dim=2, nu=45.0), [1e-6, 1e-3]),
+                              ("Integral", dict(dim=2, nu=49.5), [1e-7, 1e-3])):
+            m = getattr(g, cls)(**kw)
+            c = np.asarray(m.correlation(np.array(lags)), float)
+            ev += 1
+            if not np.isfinite(c[0]) or c[0] < c[1] - 1e-6:
+                pos = np.array([[0.0, lags[0], 0.3], [0.0, 0.0, 0.0]])
+                C = cov_matrix_spatial(m, pos)
+                viol.append({"key": f"small-lag-breakdown:{cls}",
+                             "what": f"{cls}({kw}).correlation({lags}) = {c.tolist()}; covariance matrix of (0,0),({lags[0]},0),(0.3,0) = {C.tolist()}",
+                             "case": {"cls": cls, "kw": kw, "lags": lags, "correlation": c.tolist()}})
+        # N3: TPL models with a lower cut-off exceed 1 between the two isclose windows
+        for cls, kw, lags in (("TPLGaussian", dict(dim=1, hurst=0.15, len_low=0.1, len_scale=0.4), [2e-9, 4e-9]),
+                              ("TPLExponential", dict(dim=1, hurst=0.15, len_low=0.1, len_scale=0.4), [2e-9, 4e-9]),
+                              ("TPLStable", dict(dim=1, hurst=0.15, alpha=1.5, len_low=0.1, len_scale=0.4), [2e-9, 4e-9])):
+            m = getattr(g, cls)(**kw)
+            c = np.asarray(m.correlation(np.array(lags)), float)
+            ev += 1
+            if np.max(np.abs(c)) > 1 + 1e-9:
+                viol.append({"key": f"correlation-exceeds-one:{cls}", "what": f"{cls}({kw}).correlation({lags}) = {c.tolist()} > 1",
+                             "case": {"cls": cls, "kw": kw, "lags": lags, "correlation": c.tolist()}})
+    return ev
+
+
 def search(ctx, deep=False):
     viol, stats = [], {}
-    e4 = stale_dim_scan(ctx, viol)
+    e4 = directed(ctx, viol)
+    e4 += stale_dim_scan(ctx, viol)
     e1 = eig_scan(ctx, deep, viol, stats)
     e2 = cor_scan(ctx, deep, viol)
     e3 = spectrum_scan(ctx, deep, viol)
